@@ -28,7 +28,7 @@ from .. import filt_util as fu
 PID = "C23"
 
 MC_INVS = ["C23_TruncateBounded", "C23_IndentOnlyInserts", "C23_CenterOK", "C23_TrimExact", "C23_CaseMaps",
-           "C23_ReplaceCount", "C23_WordCount", "C23_StripTagsUrl", "C23_WrapIdentity"]
+           "C23_ReplaceCount", "C23_ReplaceCountMarkup", "C23_WordCount", "C23_StripTagsUrl", "C23_WrapIdentity"]
 
 
 def model_check(tier):
@@ -55,8 +55,11 @@ def milli(x):
     return int(d)
 
 
-def encv(v):
-    """enc() with floats projected to exact thousandths or a class label."""
+def encv(v, tup=False):
+    """enc() with floats projected to exact thousandths or a class label.  tup: tuples keep their
+    own tag "t" (format prints a tuple and a list differently)."""
+    if tup and isinstance(v, (list, tuple)):
+        return {"t": "t" if isinstance(v, tuple) else "l", "v": [encv(x, True) for x in v]}
     if isinstance(v, float):
         if math.isnan(v):
             return {"t": "c", "v": "float:nan"}
@@ -75,11 +78,11 @@ def encv(v):
 # case generation
 # ---------------------------------------------------------------------------
 
-def case(f, inp, args=None, tmpl=None, pos=(), kw=None, name="", x=None, inp_enc=None, seq=None):
+def case(f, inp, args=None, tmpl=None, pos=(), kw=None, name="", x=None, inp_enc=None, seq=None, ae=False):
     """seq: cases with the same seq id form a sequence that is run in this order in ONE process
-    (observe_all never splits it over two workers)."""
+    (observe_all never splits it over two workers).  ae: run in environments with autoescaping on."""
     return {"f": f, "name": name, "inp": inp, "args": dict(args or {}), "tmpl": tmpl or f"v|{f}",
-            "pos": list(pos), "kw": dict(kw or {}), "x": dict(x or {}), "inp_enc": inp_enc, "seq": seq}
+            "pos": list(pos), "kw": dict(kw or {}), "x": dict(x or {}), "inp_enc": inp_enc, "seq": seq, "ae": ae}
 
 
 def equal_value_families(tier):
@@ -239,19 +242,64 @@ def gen_cases(tier, seed):
                 for v in order:
                     inp = {"scalar": v, "value": {"k": v}, "key": {v: "x y"}, "pair": [(v, v)]}[form]
                     add(case("urlencode", inp, seq=seq))
-    # ---- replace
+    # ---- replace: every autoescape setting; in the first pass everything is a plain string, then the subject,
+    # the search string and the replacement are independently plain or safe (Markup), with counts below, at and
+    # above the number of occurrences (texts with `<` / `&` change length when they are escaped)
+    from markupsafe import Markup
+    pairs = (("a", "xx"), ("a", ""), ("aa", "a"), (" ", "-"), ("B\n", "<"), ("-", "--"))
     for s in sample(texts, 300 if quick else 2000) + words:
-        for old, new in (("a", "xx"), ("a", ""), ("aa", "a"), (" ", "-"), ("B\n", "<"), ("-", "--")):
-            add(case("replace", s, {"old": old, "new": new, "count": -1}, "v|replace(old, new)", pos=["old", "new"]))
-            for count in (0, 1, 2):
-                if quick and count == 2 and len(s) > 3:
+        for old, new in pairs:
+            for ae in (False, True):
+                if quick and ae and rnd.random() < (0.7 if len(s) <= 3 else 0.9):
                     continue
-                add(case("replace", s, {"old": old, "new": new, "count": count}, "v|replace(old, new, count)",
-                         pos=["old", "new", "count"]))
-    # ---- format
-    for fmt in ("%s", "a%sB", "%s%%", "100%% %s", "<%s>"):
-        for arg in ("x", "", "a B", 5, -3, True, None):
-            add(case("format", fmt, {"arg": arg}, "v|format(arg)", pos=["arg"]))
+                add(case("replace", s, {"old": old, "new": new, "count": -1}, "v|replace(old, new)", pos=["old", "new"],
+                         ae=ae))
+                for count in (0, 1, 2):
+                    if quick and count == 2 and len(s) > 3:
+                        continue
+                    add(case("replace", s, {"old": old, "new": new, "count": count}, "v|replace(old, new, count)",
+                             pos=["old", "new", "count"], ae=ae))
+    mpairs = (("a", "<b>"), ("a", "x"), ("<", "a"), ("aa", "&"), ("-", "<-"), (" ", ""))
+    msubj = sample([t for t in texts if t.count("a") + t.count("<") + t.count("-") >= 2], 25 if quick else 600) + \
+        ["aaaa", "aaa<", "a-a-a", "<a<a<", "a&a a&a", "<aaa>", "aa aa aa", "B"]
+    for s in msubj:
+        for old, new in mpairs:
+            for sm, om, nm in itertools.product((False, True), repeat=3):
+                if not (sm or om or nm):
+                    continue
+                if quick and rnd.random() < 0.6:
+                    continue
+                a = {"old": Markup(old) if om else old, "new": Markup(new) if nm else new}
+                subj = Markup(s) if sm else s
+                for ae in (True, False):
+                    if not ae and rnd.random() < 0.7:
+                        continue
+                    for count in (-1, 0, 1, 2, 5):
+                        if quick and count in (0, 5) and rnd.random() < 0.5:
+                            continue
+                        if count == -1:
+                            add(case("replace", subj, dict(a, count=-1), "v|replace(old, new)", pos=["old", "new"], ae=ae))
+                        elif count == 5:
+                            add(case("replace", subj, dict(a, count=5), "v|replace(old, new, count=count)",
+                                     pos=["old", "new"], kw={"count": "count"}, ae=ae))
+                        else:
+                            add(case("replace", subj, dict(a, count=count), "v|replace(old, new, count)",
+                                     pos=["old", "new", "count"], ae=ae))
+    # ---- format: `fmt % (a1, ..., an)` for n = 0..3; every argument is one item: scalars, tuples (empty, one
+    # element, as many elements as there are directives, more), lists; the number of directives is below, at
+    # and above n (TypeError exactly when they differ)
+    scalars = ["x", "", "a B", 5, -3, True, None]
+    conts = [(), (1,), (1, 2), ("a",), ("a", "b"), (1, "a", None), [], [1, 2], ["a"], ((1, 2),), ([],), [(), (3,)],
+             (True, -7), ("a b", 0)]
+    fmts = ("%s", "a%sB", "%s%%", "100%% %s", "<%s>", "%s and %s", "%s%s", "abc", "%%", "", "%s-%s-%s")
+    for fmt in fmts:
+        add(case("format", fmt, {}, "v|format()"))
+        for a1 in scalars + conts:
+            add(case("format", fmt, {"a1": a1}, "v|format(a1)", pos=["a1"]))
+        for a1, a2 in sample(itertools.product(scalars[:4] + conts[:8], repeat=2), 25 if quick else 144):
+            add(case("format", fmt, {"a1": a1, "a2": a2}, "v|format(a1, a2)", pos=["a1", "a2"]))
+        for a1, a2, a3 in sample(itertools.product(scalars[:4] + conts[:6], repeat=3), 10 if quick else 100):
+            add(case("format", fmt, {"a1": a1, "a2": a2, "a3": a3}, "v|format(a1, a2, a3)", pos=["a1", "a2", "a3"]))
     # ---- wordwrap
     wtexts = sample([t for t in texts if "\r" not in t], 300 if quick else 2000) + words + \
         ["aaaa-BBBB aa a-B", "a" * 11, "aa BB " * 4, "a-" * 6]
@@ -322,7 +370,8 @@ EXCLUDED = [
     "indent(first=true, blank=false) of a text whose first line is empty",
     "trim with an empty chars argument; replace with an empty search string; truncate with length < len(end)",
     "center of multi-line text",
-    "format beyond %s / %%; striptags with entities or comments; urlencode of bytes values, of -0.0, of floats that "
+    "format beyond %s / %%, keyword arguments, safe strings or texts with quotes / backslashes inside tuple and "
+    "list arguments; striptags with entities or comments; urlencode of bytes values, of -0.0, of floats that "
     "are not exact in thousandths, of ints >= 2^31 and of objects (Decimal, Fraction) as values",
     "int of a decimal string with base != 10 (the documentation says the base is ignored for decimal numbers, "
     "the code parses in that base)",
@@ -336,23 +385,25 @@ EXCLUDED = [
 # running the real filters
 # ---------------------------------------------------------------------------
 
-_driver = None
+_driver = {}
 
 
-def driver():
-    global _driver
-    if _driver is None:
+def driver(ae=False):
+    if ae not in _driver:
         core.use_repo()
-        _driver = fu.Driver(autoescape=False)
-    return _driver
+        _driver[ae] = fu.Driver(autoescape=ae)
+    return _driver[ae]
 
 
 def observe_case(c):
-    drv = driver()
+    drv = driver(bool(c.get("ae")))
     f = c["f"]
+    tup = f == "format"
     inp_e = c["inp_enc"] or encv(c["inp"])
-    args_e = {k: encv(v) for k, v in c["args"].items()}
+    args_e = {k: encv(v, tup) for k, v in c["args"].items()}
     x_e = {k: encv(v) for k, v in c["x"].items()}
+    if f == "replace":
+        x_e["ae"] = {"t": "b", "v": bool(c.get("ae"))}
     groups = {}
     nruns = 0
     for envk in ("sync", "async"):
@@ -377,14 +428,15 @@ def observe_case(c):
             inp2 = c["inp_enc"] or encv(inp)
             if c["inp_enc"] and f in ("int", "float") and isinstance(inp, (list, dict)) and inp != c["inp"]:
                 inp2 = {"t": "c", "v": "modified"}
-            args2 = {k: encv(v) for k, v in args.items()}
+            args2 = {k: encv(v, tup) for k, v in args.items()}
             key = json.dumps([out, inp2, args2], sort_keys=True)
             g = groups.get(key)
             if g is None:
                 g = groups[key] = {"f": f, "name": c["name"], "inp": inp_e, "args": args_e, "out": out,
                                    "inp2": inp2, "args2": args2, "x": x_e, "modes": [],
                                    "shown": repr(c["inp"])[:60],
-                                   "how": {"tmpl": c["tmpl"], "pos": c["pos"], "kw": c["kw"], "seq": c["seq"]}}
+                                   "how": {"tmpl": c["tmpl"], "pos": c["pos"], "kw": c["kw"], "seq": c["seq"],
+                                           "ae": bool(c.get("ae"))}}
             g["modes"].append(f"{envk}/{via}")
     return list(groups.values()), nruns
 
@@ -433,6 +485,7 @@ def report(ck, rejected):
     for rec, why, expected in rejected:
         args = {k: fu.show(v) for k, v in rec["args"].items()}
         what = (f"{rec['f']}({(rec['name'] + '; ') if rec['name'] else ''}{args}) on {rec['shown']} "
+                f"{'(autoescape on) ' if rec['how'].get('ae') else ''}"
                 f"[{', '.join(rec['modes'])}]: jinja2 produced {fu.show(rec['out'])}")
         if expected and not (expected.get("t") == "s" and expected.get("v") == [] and rec["f"] not in
                              ("truncate", "indent", "trim", "title", "capitalize", "upper", "lower", "replace",
@@ -509,7 +562,8 @@ def replay(ck, rec):
             return
     for c in cases:
         if c["f"] == r["f"] and c["tmpl"] == r["how"]["tmpl"] and repr(c["inp"])[:60] == r["shown"] \
-                and {k: encv(v) for k, v in c["args"].items()} == r["args"] and c["name"] == r["name"]:
+                and {k: encv(v, c["f"] == "format") for k, v in c["args"].items()} == r["args"] \
+                and c["name"] == r["name"] and bool(c.get("ae")) == bool(r["how"].get("ae")):
             recs, _ = observe_case(c)
             report(ck, fu.tlc_validate(ck, "StrFiltersTrace", recs, label="replay"))
             return
